@@ -164,7 +164,39 @@ fn literal_spellings(r: &mut Rng) -> String {
         }
         out
     };
-    match r.below(12) {
+    match r.below(14) {
+        12 | 13 => {
+            // radix literals around rounding boundaries: 53 significant bits, then the round bit, then a
+            // run of zeros, optionally one more set bit far below, then zeros (exact ties round to even,
+            // anything above a tie rounds up - however far below the deciding bit sits)
+            let mut bits = String::from("1");
+            for _ in 0..52 {
+                bits.push(if r.chance(1, 2) { '1' } else { '0' });
+            }
+            bits.push(if r.chance(3, 4) { '1' } else { '0' });
+            for _ in 0..r.below(48) {
+                bits.push('0');
+            }
+            if r.chance(2, 3) {
+                bits.push('1');
+                for _ in 0..r.below(30) {
+                    bits.push('0');
+                }
+            }
+            if r.chance(1, 2) {
+                format!("0b{}", bits)
+            } else {
+                // same value in hexadecimal: left-pad to a multiple of four bits
+                while bits.len() % 4 != 0 {
+                    bits.insert(0, '0');
+                }
+                let hex: String = bits.as_bytes().chunks(4).map(|c| {
+                    let v = c.iter().fold(0u32, |a, b| a * 2 + (*b - b'0') as u32);
+                    std::char::from_digit(v, 16).unwrap()
+                }).collect();
+                format!("0x{}", hex.trim_start_matches('0'))
+            }
+        }
         0 => {
             let n = 1 + r.below(40);
             let d = digits(r, n, false);
